@@ -24,12 +24,28 @@ theorem edgelist_rt (d : Char) (cm : Option Char) (ty : Ty) (edges : List (List 
     (hd : DelimOK d cm) (hne : ∀ e ∈ edges, e ≠ [])
     (hl : ∀ e ∈ edges, ∀ a ∈ e, TokOK d cm (renderAtom a) ∧ cast ty (renderAtom a) = .ok a) :
     readEdgelist cm (some d) ty (writeEdgelist d edges) = .ok (netOfEdgeList edges) := by
-  unfold readEdgelist writeEdgelist parseEdgelistLines genEdgelist
-  have hmm : edges.map (fun e => [d].intercalate (e.map renderAtom)) =
-      (edges.map (fun e => e.map renderAtom)).map (fun ts => [d].intercalate ts) := by
-    simp [List.map_map]
-  rw [hmm, tokens_of_generated_file d cm hd]
-  · rw [mapRes_mapRes_cast_render ty edges (fun e he a ha => (hl e he a ha).2)]; rfl
+  apply edgelist_core d cm (some d) ty edges _ (fun e he a ha => (hl e he a ha).2)
+  apply tokens_of_generated_file d cm hd
+  · intro ts hts
+    simp only [List.mem_map] at hts
+    obtain ⟨e, he, rfl⟩ := hts
+    simpa using hne e he
+  · intro ts hts t ht
+    simp only [List.mem_map] at hts
+    obtain ⟨e, he, rfl⟩ := hts
+    simp only [List.mem_map] at ht
+    obtain ⟨a, ha, rfl⟩ := ht
+    exact (hl e he a ha).1
+
+/-- The same for the reader's default `delimiter=None` (split on runs of whitespace) on a file written with a
+    whitespace delimiter (`" "` or `"\t"`): labels must then be free of whitespace altogether. -/
+theorem edgelist_rt_ws (d : Char) (cm : Option Char) (ty : Ty) (edges : List (List Atom))
+    (hsp : pySpace d = true) (hdnl : d ≠ '\n') (hcd : cm ≠ some d) (hcnl : cm ≠ some '\n')
+    (hne : ∀ e ∈ edges, e ≠ [])
+    (hl : ∀ e ∈ edges, ∀ a ∈ e, TokWs cm (renderAtom a) ∧ cast ty (renderAtom a) = .ok a) :
+    readEdgelist cm none ty (writeEdgelist d edges) = .ok (netOfEdgeList edges) := by
+  apply edgelist_core d cm none ty edges _ (fun e he a ha => (hl e he a ha).2)
+  apply tokens_of_generated_file_ws d cm hsp hdnl hcd hcnl
   · intro ts hts
     simp only [List.mem_map] at hts
     obtain ⟨e, he, rfl⟩ := hts
@@ -85,6 +101,15 @@ theorem edgelist_rt_int (d : Char) (cm : Option Char) (edges : List (List Int))
     simp only [List.mem_map] at ha; obtain ⟨i, _, rfl⟩ := ha
     exact ⟨tokOK_int d cm i hdd hc, cast_int i⟩
 
+/-- the delimiters of the statement (`" " "," ";" "|" "\t"`) with the default comment token `#` meet every side
+    condition of `edgelist_rt_int` / `bipartite_rt` -/
+theorem delimOK_standard (d : Char) (h : d ∈ [' ', ',', ';', '|', '\t']) :
+    DelimOK d (some '#') ∧ (d.isDigit = false ∧ d ≠ '-') ∧ (∀ c, some '#' = some c → c.isDigit = false ∧ c ≠ '-') := by
+  simp only [List.mem_cons, List.not_mem_nil, or_false] at h
+  refine ⟨?_, ?_, by intro c hc; cases hc; decide⟩
+  · rcases h with rfl | rfl | rfl | rfl | rfl <;> exact ⟨by decide, by decide, by decide⟩
+  · rcases h with rfl | rfl | rfl | rfl | rfl <;> decide
+
 /-- Instance for str labels read with `nodetype=None` (or `str`): the cast is the identity, so only the
     format conditions on the labels remain. -/
 theorem edgelist_rt_str (d : Char) (cm : Option Char) (ty : Ty) (hty : ty = .none ∨ ty = .str)
@@ -115,9 +140,27 @@ theorem bipartite_rt (d : Char) (cm : Option Char) (nty ety : Ty) (dual : Bool)
       cast (if dual then nty else ety) (renderAtom p.2) = .ok p.2) :
     readBipartite cm (some d) nty ety dual (writeBipartite d edges) =
       .ok (netOfPairs (if dual then (incOf edges).map Prod.swap else incOf edges)) := by
-  unfold readBipartite writeBipartite parseBipartiteLines
-  rw [genBipartite_eq, tokens_of_generated_file d cm hd]
-  · rw [mapRes_bipartiteLine nty ety dual (incOf edges) (fun p hp => ⟨(hl p hp).2.2.1, (hl p hp).2.2.2⟩)]; rfl
+  apply bipartite_core d cm (some d) nty ety dual edges _ (fun p hp => ⟨(hl p hp).2.2.1, (hl p hp).2.2.2⟩)
+  apply tokens_of_generated_file d cm hd
+  · intro ts hts; simp only [List.mem_map] at hts; obtain ⟨p, _, rfl⟩ := hts; simp
+  · intro ts hts t ht
+    simp only [List.mem_map] at hts; obtain ⟨p, hp, rfl⟩ := hts
+    simp only [List.mem_cons, List.not_mem_nil, or_false] at ht
+    rcases ht with rfl | rfl
+    · exact (hl p hp).1
+    · exact (hl p hp).2.1
+
+/-- The same for `delimiter=None` on a file written with a whitespace delimiter. -/
+theorem bipartite_rt_ws (d : Char) (cm : Option Char) (nty ety : Ty) (dual : Bool)
+    (edges : List (Atom × List Atom))
+    (hsp : pySpace d = true) (hdnl : d ≠ '\n') (hcd : cm ≠ some d) (hcnl : cm ≠ some '\n')
+    (hl : ∀ p ∈ incOf edges, TokWs cm (renderAtom p.1) ∧ TokWs cm (renderAtom p.2) ∧
+      cast (if dual then ety else nty) (renderAtom p.1) = .ok p.1 ∧
+      cast (if dual then nty else ety) (renderAtom p.2) = .ok p.2) :
+    readBipartite cm none nty ety dual (writeBipartite d edges) =
+      .ok (netOfPairs (if dual then (incOf edges).map Prod.swap else incOf edges)) := by
+  apply bipartite_core d cm none nty ety dual edges _ (fun p hp => ⟨(hl p hp).2.2.1, (hl p hp).2.2.2⟩)
+  apply tokens_of_generated_file_ws d cm hsp hdnl hcd hcnl
   · intro ts hts; simp only [List.mem_map] at hts; obtain ⟨p, _, rfl⟩ := hts; simp
   · intro ts hts t ht
     simp only [List.mem_map] at hts; obtain ⟨p, hp, rfl⟩ := hts
@@ -281,6 +324,11 @@ example : DelimOK '|' (some '#') := ⟨by decide, by decide, by decide⟩
 example : TokOK ',' (some '#') "a b".toList :=
   ⟨by decide, by decide, by intro c hc; cases hc; decide, by decide,
    by intro c hc; cases hc; decide, by intro c hc; cases hc; decide⟩
+-- written with "\t", read with the default delimiter=None
+example : readEdgelist (some '#') none .none (writeEdgelist '\t' [[.str "ab", .str "c"], [.str "c"]]) =
+    .ok ⟨[.str "ab", .str "c"], [(.int 0, [.str "ab", .str "c"]), (.int 1, [.str "c"])]⟩ := by decide
+example : TokWs (some '#') "ab".toList :=
+  ⟨by decide, by decide, by intro c hc; cases hc; decide⟩
 -- a label containing the delimiter does NOT round trip (the hypothesis is needed)
 example : readEdgelist (some '#') (some ',') .none (writeEdgelist ',' [[.str "a,b"]]) ≠
     .ok (netOfEdgeList [[.str "a,b"]]) := by decide
